@@ -90,6 +90,25 @@ CHECKS = {
         note="z3 qffpbv tactic decides the FP lemmas; heater units compare temperatures through raw words (ratio "
              "abstraction) justified by the monotone.* lemma units of the same check.",
         ref="5/C14"),
+    "C17": dict(
+        text="Real set_config_mode from an arbitrary (symbolic) prior table against the Active/Idle tables found by "
+             "reflection; real GeckoAsyncFacade._on_config_device_change on symbolic pump/blower states (active iff some "
+             "pump or blower is on); real config_sleep, asyncio.wait and asyncio.sleep on a virtual loop whose clock is a "
+             "z3 Real: start offsets, delays and switch instants are free reals and every timer ordering is explored - "
+             "each sleeper wakes exactly at min(deadline, first switch inside its sleep).",
+        note="Bounded: <=2 sleepers/1 switch (quick), <=3/2 (thorough); clock readings are mathematical reals; distinct "
+             "events at distinct instants.",
+        ref="5/C17"),
+    "C18": dict(
+        text="Behavioural equivalence of every shipped item - the real accessor object built by the current table and "
+             "accessor code - with an independent reference decoder/encoder built from the layout pinned at the audited "
+             "commit, on a symbolic block, position and value (read, write triple, writability), per pinned record shape; "
+             "items whose declaration differs from the pinned record are compared at their concrete positions, so any "
+             "layout change yields a concrete block on which old and new decode differently. Plus addressability of every "
+             "item, key lists, module attributes, file naming and the FILES naming round trip.",
+        note="Pinned layout generated by ast from commit 236b7b1; new modules allowed. Side conditions on module "
+             "attributes/keys/naming are finite concrete comparisons. Known findings: PurgeDelayTimer, WaterDetected.",
+        ref="5/C18"),
     "C16": dict(
         text="One inductive step of both real sequence-counter implementations from an arbitrary in-range pre-state "
              "(covers every call history), and the sequence byte of every real request factory of the async and the "
